@@ -9,6 +9,8 @@ import (
 	"github.com/canopy-network/canopy/bft"
 	"github.com/canopy-network/canopy/lib"
 	"github.com/canopy-network/canopy/lib/crypto"
+	"google.golang.org/protobuf/proto"
+	"google.golang.org/protobuf/reflect/protoreflect"
 
 	"verifharness/drv"
 )
@@ -272,7 +274,73 @@ type seen struct {
 
 // RunSignBytes: correspondence of View / QuorumCertificate / bft.Message marshalling and sign bytes
 // with the model, and the oracle "different meaning never shares sign bytes" on the real functions.
+// runTxSignBytes: two transactions that differ in exactly one signed-content field (every field of
+// lib.Transaction except the signature itself) never share sign bytes; enumerated by reflection over
+// the message so a field added later is covered without touching this file. Oracle only: the field
+// list of GetSignBytes is tied to the model in C06 (sign_bytes_fields).
+func runTxSignBytes(o *drv.Out) {
+	r := o.Rng
+	a, _ := lib.NewAny(&lib.View{Height: 7})
+	a2, _ := lib.NewAny(&lib.View{Height: 8})
+	base := func() *lib.Transaction {
+		return &lib.Transaction{MessageType: "send", Msg: a, Signature: &lib.Signature{PublicKey: []byte{1}, Signature: []byte{2}},
+			CreatedHeight: 5, Time: 11, Fee: 3, Memo: "m", NetworkId: 1, ChainId: 2, Nonce: 9}
+	}
+	rounds := 8
+	if o.Tier == "thorough" {
+		rounds = 200
+	}
+	for k := 0; k < rounds; k++ {
+		t0 := base()
+		if k > 0 { // randomised bases, incl. zero values (proto3 omits them)
+			t0.CreatedHeight, t0.Time, t0.Fee, t0.NetworkId, t0.ChainId, t0.Nonce = smallU(r), smallU(r), smallU(r), smallU(r), smallU(r), smallU(r)
+			if r.Intn(2) == 0 {
+				t0.Memo = ""
+			}
+		}
+		sb0, e0 := t0.GetSignBytes()
+		if e0 != nil {
+			continue
+		}
+		fields := t0.ProtoReflect().Descriptor().Fields()
+		for i := 0; i < fields.Len(); i++ {
+			fd := fields.Get(i)
+			name := string(fd.Name())
+			if name == "signature" {
+				continue
+			}
+			t1 := proto.Clone(t0).(*lib.Transaction)
+			m := t1.ProtoReflect()
+			switch fd.Kind() {
+			case protoreflect.Uint64Kind, protoreflect.Uint32Kind:
+				m.Set(fd, protoreflect.ValueOfUint64(m.Get(fd).Uint()+1+uint64(r.Intn(3))))
+			case protoreflect.StringKind:
+				m.Set(fd, protoreflect.ValueOfString(m.Get(fd).String()+"x"))
+			case protoreflect.BytesKind:
+				m.Set(fd, protoreflect.ValueOfBytes(append(append([]byte{}, m.Get(fd).Bytes()...), 1)))
+			case protoreflect.MessageKind:
+				if name == "msg" {
+					t1.Msg = a2
+				} else {
+					o.Count("tx-signbytes:unhandled-message-field:" + name)
+					continue
+				}
+			default:
+				o.Count("tx-signbytes:unhandled-kind:" + name)
+				continue
+			}
+			sb1, e1 := t1.GetSignBytes()
+			o.Count("tx-signbytes:field:" + name)
+			if e1 == nil && bytes.Equal(sb0, sb1) {
+				o.Fail("C19:signbytes-collision:tx."+name, fmt.Sprintf("two transactions that differ only in %s share sign bytes %s", name, drv.Hex(sb0)),
+					map[string]any{"tx1": drv.Hex(mustMarshal(t0)), "tx2": drv.Hex(mustMarshal(t1)), "field": name, "signbytes": drv.Hex(sb0)})
+			}
+		}
+	}
+}
+
 func RunSignBytes(o *drv.Out) {
+	runTxSignBytes(o)
 	r := o.Rng
 	n := 3000
 	if o.Tier == "thorough" {
